@@ -58,15 +58,19 @@ def request_functions(ctx, eff):
     return seen
 
 
-def check(ctx, rep):
-    prog = ctx.prog
-    eff = Effects(prog, ctx.resolver)
-    rep.rule("R14a", "module-level writes on the request path: guarded idempotent lazy init from configuration only; no in-place mutation of shared objects", floor=5)
-    rep.rule("R14b", "protocol/handler objects are per request; header cache is per connection", floor=3)
-    rep.rule("R14c", "fork child always _exit()s; parent records child, closes, returns; thread worker always shuts down", floor=2)
-    funcs = request_functions(ctx, eff)
-    rep.analysed(*sorted(f.qualname for f in funcs)[:150])
+def shared_state_obligations(ctx, rep, rule, eff, funcs, sequential=False):
+    """Module-level writes / in-place mutation of shared objects in request-path functions.
+    sequential=True (history independence, C03): what happens inside a guarded one-time
+    initialisation block is invisible to later requests, so only per-request writes count."""
 
+    def in_lazy_init(f, node, globs):
+        for anc, field in enclosing(f.node, node):
+            if isinstance(anc, ast.If) and field == "body":
+                t = norm(anc.test)
+                if any(t in (f"not {g}", f"{g} is None", f"{g} == None") for g in globs | set(f.module.globals)):
+                    return True
+        return False
+    prog = ctx.prog
     # ------------------------------------------------------------------ R14a
     for f in sorted(funcs, key=lambda x: x.qualname):
         if f.module.name.startswith("simpletal"):
@@ -101,9 +105,10 @@ def check(ctx, rep):
                 cfg = any(isinstance(x, ast.Call) and isinstance(x.func, ast.Attribute) and x.func.attr in ("get", "getint", "getboolean")
                           and "config" in norm(x.func.value) for x in ast.walk(v))
                 if not cfg and not isinstance(v, ast.Constant):
-                    problems.append(f"value `{norm(v)[:40]}` is not read from the configuration (not idempotent)")
+                    if not (sequential and guarded and isinstance(v, (ast.List, ast.Dict, ast.Set, ast.Tuple))):
+                        problems.append(f"value `{norm(v)[:40]}` is not read from the configuration (not idempotent)")
                 for nm in names:
-                    rep.add("R14a", f"{f.qualname}: global {nm}", not problems, ctx.where(f, n), "; ".join(problems), key=f"R14a|{f.qualname}|{nm}")
+                    rep.add(rule, f"{f.qualname}: global {nm}", not problems, ctx.where(f, n), "; ".join(problems), key=f"{rule}|{f.qualname}|{nm}")
             # in-place mutation of module-level / class-level objects
             if isinstance(n, ast.Call) and isinstance(n.func, ast.Attribute) and n.func.attr in MUTATORS:
                 recv = n.func.value
@@ -121,28 +126,42 @@ def check(ctx, rep):
                     a = prog.class_attr(f.cls, d.split(".")[1])
                     if isinstance(a, (ast.List, ast.Dict, ast.Set)) and not _assigned_in_instance(prog, f.cls, d.split(".")[1]):
                         shared = f"class-level mutable {f.cls.name}.{d.split('.')[1]}"
+                if shared and sequential and in_lazy_init(f, n, globs):
+                    shared = None
                 if shared:
-                    rep.fail("R14a", f"{f.qualname}: {norm(n)[:50]}", ctx.where(f, n),
+                    rep.fail(rule, f"{f.qualname}: {norm(n)[:50]}", ctx.where(f, n),
                              f"in-place mutation of {shared} while serving a request: concurrent requests see each other's partial updates",
-                             key=f"R14a|{f.qualname}|mut|{norm(n.func)}")
+                             key=f"{rule}|{f.qualname}|mut|{norm(n.func)}")
             if isinstance(n, (ast.Assign, ast.AugAssign)):
                 tgts = n.targets if isinstance(n, ast.Assign) else [n.target]
                 for t in tgts:
                     if isinstance(t, ast.Subscript):
                         base = t.value
                         if isinstance(base, ast.Name) and (base.id in globs or (base.id in f.module.globals and base.id not in _locals(f))):
-                            rep.fail("R14a", f"{f.qualname}: {norm(t)[:50]} = ...", ctx.where(f, n),
-                                     f"element write into module-level {base.id} while serving a request", key=f"R14a|{f.qualname}|elt|{base.id}")
+                            rep.fail(rule, f"{f.qualname}: {norm(t)[:50]} = ...", ctx.where(f, n),
+                                     f"element write into module-level {base.id} while serving a request", key=f"{rule}|{f.qualname}|elt|{base.id}")
                     if isinstance(t, ast.Attribute) and (dotted(t.value) or "") in ("self.server", "server", "self.protocol.server", "protocol.server"):
-                        rep.fail("R14a", f"{f.qualname}: {norm(t)} = ...", ctx.where(f, n),
+                        rep.fail(rule, f"{f.qualname}: {norm(t)} = ...", ctx.where(f, n),
                                  "writes an attribute of the server object, which every connection shares",
-                                 key=f"R14a|{f.qualname}|server|{norm(t)}")
+                                 key=f"{rule}|{f.qualname}|server|{norm(t)}")
                     if isinstance(t, ast.Attribute) and not (dotted(t.value) or "").startswith("self") and dotted(t.value):
                         res = prog.resolve_dotted(f.module, dotted(t.value)) if dotted(t.value).split(".")[0] not in _locals(f) else None
                         if res and res[0] in ("module", "class"):
-                            rep.fail("R14a", f"{f.qualname}: {norm(t)} = ...", ctx.where(f, n),
+                            rep.fail(rule, f"{f.qualname}: {norm(t)} = ...", ctx.where(f, n),
                                      f"assignment to an attribute of {res[0]} {dotted(t.value)} while serving a request",
-                                     key=f"R14a|{f.qualname}|attr|{norm(t)}")
+                                     key=f"{rule}|{f.qualname}|attr|{norm(t)}")
+
+
+def check(ctx, rep):
+    prog = ctx.prog
+    eff = Effects(prog, ctx.resolver)
+    rep.rule("R14a", "module-level writes on the request path: guarded idempotent lazy init from configuration only; no in-place mutation of shared objects", floor=5)
+    rep.rule("R14b", "protocol/handler objects are per request; header cache is per connection", floor=3)
+    rep.rule("R14c", "fork child always _exit()s; parent records child, closes, returns; thread worker always shuts down", floor=2)
+    funcs = request_functions(ctx, eff)
+    rep.analysed(*sorted(f.qualname for f in funcs)[:150])
+
+    shared_state_obligations(ctx, rep, "R14a", eff, funcs)
     # start-up-only mutators are not reachable from the request path
     for q in ("fileext.init", "logger.init", "initialization.init_mimetypes", "GopherExceptions.init"):
         g = ctx.func(q)
